@@ -64,17 +64,46 @@ def tus(tier, seed, table=None):
             res.append(dict(name='%s_all_p%d_%d' % (table, path, i // 10), src=body, compiler='g++', defines=['CNL_VERIF_OVERFLOW_PATH=%d' % path]))
     # floating-point sources
     FT = {'f32': 'float', 'f64': 'double', 'f80': 'long double'}
-    fc = [('sat', 'f32', 'i32'), ('sat', 'f64', 'i64'), ('thr', 'f32', 'u8'), ('trp', 'f64', 'u32'), ('sat', 'f80', 'i64'), ('sat', 'f32', 'i8'),
-          ('thr', 'f64', 'i16'), ('sat', 'f64', 'u64'), ('trp', 'f32', 'i64')]
-    for i in range(0, len(fc), 3):
+    # every floating format x every destination type (the limit of a destination with more digits than the
+    # format holds rounds to a power of two: the repaired boundary); the tag rotates with the seed
+    tags3 = ['sat', 'thr', 'trp']
+    fc = []
+    for fi, f in enumerate(FT):
+        for di, d in enumerate(CT):
+            fc.append((tags3[(fi + di + seed) % 3], f, d))
+    per_f = 5
+    for i in range(0, len(fc), per_f):
         body = '#define VH_TABLE "%s"\n#include "%s"\nint main(){ install(); Rng rng(seed_from_env()+%d);\n' % (
             table, __file__.replace('C07.py', 'C06.py').replace('.py', '.h'), 700 + i)
-        for (tag, f, d) in fc[i:i + 3]:
+        for (tag, f, d) in fc[i:i + per_f]:
             body += '  cvtf<%s, %s, %s>(rng);\n' % (TAGS[tag], FT[f], CT[d])
         body += '}\n'
-        res.append(dict(name='%s_float_%d' % (table, i // 3), src=body, compiler='g++' if i % 2 == 0 else 'clang++', defines=['CNL_VERIF_OVERFLOW_PATH=1']))
+        k = i // per_f
+        res.append(dict(name='%s_float_%d' % (table, k), src=body, compiler='g++' if k % 2 == 0 else 'clang++',
+                        defines=['CNL_VERIF_OVERFLOW_PATH=%d' % (1 + (k % 3 == 2))]))
+    # shift counts around the width of the promoted left operand: every left operand type, both paths
+    rts = ['i32', 'u8', 'u64', 'i8', 'u16', 'i64']
+    sh = []
+    for li, a in enumerate(CT):
+        for j in range(2 if tier == 'quick' else 4):
+            b = rts[(li + j * 3 + seed) % len(rts)]
+            sh.append((tags3[(li + j + seed) % 3], a, b))
+    per_s = 7
+    for i in range(0, len(sh), per_s):
+        k = i // per_s
+        for path in ([1 + (k % 2)] if tier == 'quick' else [1, 2]):
+            body = '#define VH_TABLE "%s"\n#include "%s"\nint main(){ install(); Rng rng(seed_from_env()+%d);\n' % (
+                table, __file__.replace('C07.py', 'C06.py').replace('.py', '.h'), 900 + i)
+            for (tag, a, b) in sh[i:i + per_s]:
+                body += '  shift_dense<%s, %s, %s>(rng);\n' % (TAGS[tag], CT[a], CT[b])
+            body += '}\n'
+            res.append(dict(name='%s_shift_p%d_%d' % (table, path, k), src=body, compiler='clang++' if k % 3 == 1 else 'g++',
+                            defines=['CNL_VERIF_OVERFLOW_PATH=%d' % path]))
     return res
 
 
 RULE = ("per compiled (tag, path, Lhs, Rhs): boundary lattices of both operand types cross-multiplied, plus the operands solving the "
-        "predicates' branch conditions (max / r, lowest / r and neighbours) and seeded random values; non-trivial = divisor non-zero and shift count non-negative")
+        "predicates' branch conditions (max / r, lowest / r and neighbours) and seeded random values; shifts additionally for every left operand type with "
+        "counts 0..2, digits-2..digits+1, width-1..width+2, 2*width-1..2*width+1, 127..129, 255, 256 of the promoted left operand; floating-point sources: "
+        "every format (float, double, long double) x every destination type, the limits and the powers of two they round to with +-1, +-2 ulp and "
+        "fractional neighbours, zero and the smallest magnitudes; non-trivial = divisor non-zero and shift count non-negative")
